@@ -87,12 +87,54 @@ enum State {
     Pendings(u32),
 }
 
+/// What the stream needs to build one item when its turn comes.
+enum Src {
+    Feature { idx: usize, spec: FeatureSpec },
+    Error(ParserItemKind),
+}
+
 pub struct SimParserStream {
     core: Rc<SimCore>,
-    items: Vec<(parser::Result<gherkin::Feature>, u64, u32)>,
+    /// Items still to come (last first). Features are BUILT WHEN THEY ARE DELIVERED, not up front: as with a
+    /// parser reading file after file, the gherkin values of a late feature are allocated after those of
+    /// earlier, finished features have been freed (and may get their addresses).
+    items: Vec<(Src, u64, u32)>,
+    filter: Option<(Vec<(usize, usize)>, Option<String>)>,
     next: usize,
     state: State,
     pub log: Rc<RefCell<ParserLog>>,
+}
+
+fn build_item(src: &Src, filter: Option<&(Vec<(usize, usize)>, Option<String>)>) -> Result<parser::Result<gherkin::Feature>, String> {
+    Ok(match src {
+        Src::Feature { idx, spec } => {
+            let mut f = build_feature(spec)?;
+            if let Some((filtered_rules, tags_filter)) = filter {
+                for (fi, ri) in filtered_rules {
+                    if fi == idx {
+                        if let Some(r) = f.rules.get_mut(*ri) {
+                            r.scenarios.clear();
+                        }
+                    }
+                }
+                if let Some(expr) = tags_filter {
+                    // what `filter_run` does with `--tags`: scenario, rule and feature tags together
+                    let ftags = f.tags.clone();
+                    let keep = |sc: &gherkin::Scenario, rtags: &[String]| {
+                        let all: Vec<String> = sc.tags.iter().chain(rtags).chain(&ftags).cloned().collect();
+                        crate::plan::eval_tag_expr(expr, &all)
+                    };
+                    f.scenarios.retain(|sc| keep(sc, &[]));
+                    for r in &mut f.rules {
+                        let rtags = r.tags.clone();
+                        r.scenarios.retain(|sc| keep(sc, &rtags));
+                    }
+                }
+            }
+            Ok(f)
+        }
+        Src::Error(k) => Err(make_error(k)),
+    })
 }
 
 impl SimParserStream {
@@ -108,44 +150,25 @@ impl SimParserStream {
     }
 
     fn build(core: &Rc<SimCore>, plan: &Plan, apply_filter: bool) -> Result<Self, String> {
+        let filter = apply_filter.then(|| (plan.filtered_rules.clone(), plan.cfg.tags_filter.clone()));
         let mut items = Vec::new();
         for it in &plan.items {
-            let v = match &it.kind {
+            let src = match &it.kind {
                 ParserItemKind::Feature(i) => {
                     let spec = plan.features.get(*i).ok_or("harness: bad feature index")?;
-                    let mut f = build_feature(spec)?;
-                    if apply_filter {
-                        for (fi, ri) in &plan.filtered_rules {
-                            if fi == i {
-                                if let Some(r) = f.rules.get_mut(*ri) {
-                                    r.scenarios.clear();
-                                }
-                            }
-                        }
-                        if let Some(expr) = &plan.cfg.tags_filter {
-                            // what `filter_run` does with `--tags`: scenario, rule and feature tags together
-                            let ftags = f.tags.clone();
-                            let keep = |sc: &gherkin::Scenario, rtags: &[String]| {
-                                let all: Vec<String> = sc.tags.iter().chain(rtags).chain(&ftags).cloned().collect();
-                                crate::plan::eval_tag_expr(expr, &all)
-                            };
-                            f.scenarios.retain(|sc| keep(sc, &[]));
-                            for r in &mut f.rules {
-                                let rtags = r.tags.clone();
-                                r.scenarios.retain(|sc| keep(sc, &rtags));
-                            }
-                        }
-                    }
-                    Ok(f)
+                    Src::Feature { idx: *i, spec: spec.clone() }
                 }
-                k => Err(make_error(k)),
+                k => Src::Error(k.clone()),
             };
-            items.push((v, it.delay_ns, it.pendings));
+            // (built once here to find a harness mistake before the run, and dropped again)
+            drop(build_item(&src, filter.as_ref())?);
+            items.push((src, it.delay_ns, it.pendings));
         }
         items.reverse();
         Ok(Self {
             core: Rc::clone(core),
             items,
+            filter,
             next: 0,
             state: State::Idle,
             log: Rc::new(RefCell::new(ParserLog::default())),
@@ -194,7 +217,8 @@ impl Stream for SimParserStream {
                         cx.waker().wake_by_ref();
                         return Poll::Pending;
                     }
-                    let (item, _, _) = this.items.pop().expect("checked");
+                    let (src, _, _) = this.items.pop().expect("checked");
+                    let item = build_item(&src, this.filter.as_ref()).expect("built once before the run");
                     let idx = this.next;
                     this.next += 1;
                     this.state = State::Idle;
